@@ -52,6 +52,7 @@ type Contract struct {
 	LoopDec    map[int]*Clause
 	LoopMod    map[int][]*Clause // precise frame of a loop: only these locations (and fresh objects) change
 	Asserts    []*Clause
+	Musts      []*Clause // must@<anchor>: the anchored instruction is executed on every exit path satisfying the condition
 	Pure       bool
 	Trusted    bool // contract is assumed (dependency or explicitly trusted repo function)
 	Inline     bool // body is inlined at call sites even though loop clauses are attached
@@ -158,7 +159,7 @@ func (db *SpecDB) LoadFile(path, defaultPkg string, lib bool) error {
 		if len(first) > 0 {
 			kw = first[0]
 		}
-		if clauseKeywords[kw] || strings.HasPrefix(l.text, "assert@") || strings.HasPrefix(l.text, "cbinv@") || len(joined) == 0 {
+		if clauseKeywords[kw] || strings.HasPrefix(l.text, "assert@") || strings.HasPrefix(l.text, "cbinv@") || strings.HasPrefix(l.text, "must@") || len(joined) == 0 {
 			joined = append(joined, l)
 		} else {
 			joined[len(joined)-1].text += " " + l.text
@@ -474,6 +475,21 @@ func (db *SpecDB) LoadFile(path, defaultPkg string, lib bool) error {
 						fail(l.no, "unknown loop clause %q", k2)
 					}
 				}
+			case strings.HasPrefix(text, "must@"):
+				// must@call(F,k): cond   — on every path to an exit satisfying cond, the k-th call of F (or
+				// store(T.f,k)) has been executed (a conditional skip of a mandatory step is a failed obligation)
+				col := strings.Index(text, "):")
+				if col < 0 {
+					fail(l.no, "must@ clause needs '):'")
+					continue
+				}
+				label := text[len("must@") : col+1]
+				e, err := ParseExpr(text[col+2:])
+				if err != nil {
+					fail(l.no, "%v", err)
+					continue
+				}
+				cur.Musts = append(cur.Musts, &Clause{Kind: "must", Expr: e, Text: strings.TrimSpace(text[col+2:]), Label: label, Tags: tags, Src: src, Idx: len(cur.Musts)})
 			case strings.HasPrefix(text, "assert@"), strings.HasPrefix(text, "cbinv@"):
 				// cbinv@call(F,k): an invariant of the callback handed to the k-th call of F (a higher-order
 				// iteration): proved at the call, assumed after it; that every invocation of the callback preserves
